@@ -94,7 +94,7 @@ theorem padField_abs (front : Bool) (n k : Nat) : ∀ (f : Field) (s : St) (f' :
       · rename_i ob hob
         rw [hb1] at hob; cases hob
         split at h
-        · simp at h
+        · split at h <;> simp at h
         · split at h
           · simp at h
           · rename_i o' s1 hr1
